@@ -96,7 +96,7 @@ type Interp struct {
 type budgetExceeded struct{}
 
 // BuiltinNames are the globals every generated program may use.
-var BuiltinNames = []string{"print", "emit", "n", "len", "string", "keys", "sorted", "try", "error", "call", "type", "int", "probe"}
+var BuiltinNames = []string{"print", "emit", "n", "len", "string", "keys", "sorted", "try", "error", "call", "type", "int", "probe", "spawn"}
 
 func isBuiltin(name string) bool {
 	for _, b := range BuiltinNames {
@@ -107,8 +107,18 @@ func isBuiltin(name string) bool {
 	return false
 }
 
+// Thread is the model of a spawned call that is waited for: it runs at the spawn.
+type Thread struct {
+	V Val
+	R *Raise
+}
+
 // Run statically checks and then interprets a program.
-func Run(prog []*lang.N, budget int) (out Outcome) {
+func Run(prog []*lang.N, budget int) (out Outcome) { return RunPost(prog, nil, budget) }
+
+// RunPost also models the host calling the functions held by the globals named in post
+// after the program has run (vm.Get + vm.Call); each result is logged as "#host <value>".
+func RunPost(prog []*lang.N, post []string, budget int) (out Outcome) {
 	if why := Check(prog); why != "" {
 		return Outcome{Rejected: true, RejectWhy: why}
 	}
@@ -125,6 +135,24 @@ func Run(prog []*lang.N, budget int) (out Outcome) {
 	}()
 	v, c, rs := in.block(prog, in.globals, true)
 	_ = c
+	if rs == nil {
+		for _, name := range post {
+			cell := in.globals.vars[name]
+			if cell == nil {
+				panic("refsem: post call of unknown global " + name)
+			}
+			var args []Val
+			if fn, ok := cell.V.(*Fn); ok && len(fn.N.Params) > 0 {
+				args = []Val{int64(0)}
+			}
+			pv, pr := in.call(cell.V, args)
+			if pr != nil {
+				in.Log = append(in.Log, "#host error "+pr.E.Class)
+			} else {
+				in.Log = append(in.Log, "#host "+Show(pv))
+			}
+		}
+	}
 	out.Log = in.Log
 	out.ValueUnspec = in.valueUnspec
 	if in.unspec || (rs != nil && outsideClasses[rs.E.Class]) {
@@ -1384,6 +1412,12 @@ func (in *Interp) builtin(name string, args []Val) (Val, *Raise) {
 			}
 		}
 		return nil, raise("outside-sheet", "error()")
+	case "spawn":
+		if len(args) < 1 {
+			return nil, raise("args error", "spawn")
+		}
+		v, r := in.call(args[0], args[1:])
+		return &Thread{v, r}, nil
 	case "call":
 		if len(args) < 1 {
 			return nil, raise("args error", "call")
@@ -1451,6 +1485,18 @@ func (in *Interp) builtin(name string, args []Val) (Val, *Raise) {
 
 func (in *Interp) method(recv Val, name string, args []Val) (Val, *Raise) {
 	switch o := recv.(type) {
+	case *Fn:
+		if name == "spawn" {
+			v, r := in.callFn(o, args)
+			return &Thread{v, r}, nil
+		}
+	case *Thread:
+		if name == "wait" && len(args) == 0 {
+			if o.R != nil {
+				return nil, o.R
+			}
+			return o.V, nil
+		}
 	case *List:
 		switch name {
 		case "append":
@@ -1528,6 +1574,8 @@ func TypeOf(v Val) string {
 		return "error"
 	case *Builtin, *Bound:
 		return "builtin"
+	case *Thread:
+		return "thread"
 	}
 	return "?"
 }
